@@ -77,11 +77,13 @@ func fixerMutate(g *Gen, d *Node) {
 		last := p[len(p)-1]
 		isResp := (len(p) >= 2 && p[len(p)-2] == "responses") && n.Ref() == nil
 		if isResp {
-			switch g.r.Intn(4) {
+			switch g.r.Intn(6) {
 			case 0:
 				delete(n.At, "description")
 			case 1:
 				n.At["description"] = ""
+			case 2:
+				n.At["description"] = " " // blank, but a description: must be left alone
 			}
 		}
 		for _, m := range allMethods {
